@@ -34,6 +34,10 @@ inductive Site where
   | trimSub
   /-- `usize::try_from(..).unwrap()` in `trim_to_offset` -/
   | trimTryFrom
+  /-- `self.captured[trim_len - 1]` in the space-retreating loop of `trim_to_offset` -/
+  | trimIndex
+  /-- `offset -= 1` in that loop (overflow checks on) -/
+  | trimOffsetDec
   /-- `self.captured.drain(..trim_len)` beyond the length -/
   | drainRange
   /-- `offset - self.captured_start_offset` in `take_to_offset` (overflow checks on) -/
@@ -90,14 +94,34 @@ def subU64 (oc : Bool) (offset cs : Nat) (site : Site) : R Nat :=
   else if oc then .panic site
   else .ok (offset + u64Bound - cs)
 
+/-- The loop of `trim_to_offset`:
+`while trim_len > 0 && self.captured[trim_len - 1] == b' ' { trim_len -= 1; offset -= 1; }`
+as recursion on `trim_len` (which the loop decrements); returns the final
+`(trim_len, offset)`. -/
+def retreat (oc : Bool) (captured : List Nat) : Nat → Nat → R (Nat × Nat)
+  | 0, offset => .ok (0, offset)
+  | t + 1, offset =>
+    match captured[t]? with
+    | none => .panic .trimIndex
+    | some b =>
+      if b = 0x20 then
+        if 0 < offset then retreat oc captured t (offset - 1)
+        else if oc then .panic .trimOffsetDec
+        else retreat oc captured t (u64Bound - 1)
+      else .ok (t + 1, offset)
+
 /-- `ChunkReader::trim_to_offset`. -/
 def Reader.trimToOffset (oc : Bool) (r : Reader) (offset : Nat) : R Reader :=
   match subU64 oc offset r.capturedStart .trimSub with
   | .panic s => .panic s
   | .ok d =>
     if u64Bound ≤ d then .panic .trimTryFrom
-    else if d ≤ r.captured.length then .ok ⟨r.captured.drop d, offset⟩
-    else .panic .drainRange
+    else
+      match retreat oc r.captured d offset with
+      | .panic s => .panic s
+      | .ok (trimLen, offset') =>
+        if trimLen ≤ r.captured.length then .ok ⟨r.captured.drop trimLen, offset'⟩
+        else .panic .drainRange
 
 /-- `ChunkReader::take_to_offset`: the chunk and the reader afterwards. -/
 def Reader.takeToOffset (oc : Bool) (r : Reader) (offset : Nat) : R (List Nat × Reader) :=
